@@ -439,6 +439,28 @@ func genC07(rng *hx.Rng, tier string, w *hx.Writer) error {
 				}
 			}()
 			v2, ok2 := readAll(out2, 5*time.Second)
+			// a few more short queries (whatever buffer query 1's document sits in, it is theirs to reuse
+			// only if the stage gave it away)
+			var wgq sync.WaitGroup
+			for k := 0; k < 12; k++ {
+				run := func() {
+					scq := make(chan []byte, 1)
+					scq <- sub2
+					oq, eq := dosnode.VerifGenQueryResult(ctx, scq, srv.URL+p2, "", c07Log)
+					go func() {
+						for range eq {
+						}
+					}()
+					readAll(oq, 5*time.Second)
+				}
+				if k < 6 {
+					run()
+				} else {
+					wgq.Add(1)
+					go func() { defer wgq.Done(); run() }()
+				}
+			}
+			wgq.Wait()
 			sc1 <- sub1
 			v1, ok1 := readAll(out1, 5*time.Second)
 			if !ok1 || !ok2 {
